@@ -51,7 +51,8 @@ impl Script {
     }
     fn decode(&self, data: &[u8]) -> (u8, Address, U256, U256) {
         let b = data.first().copied().unwrap_or(9);
-        let op = b % 10;
+        // 250: the state-dependent invariant check (op 10); every other byte keeps its meaning
+        let op = if b == 250 { 10 } else { b % 10 };
         let acct = self.accts[((b / 10) % 4) as usize];
         let val = if data.len() >= 33 { U256::from_be_slice(&data[1..33]) } else { U256::from(b as u64 + 1) };
         let slot = U256::from(((b / 10) % 3) as u64);
@@ -122,6 +123,16 @@ pub fn grevm_precompile(script: Script, obs: Arc<Observations>) -> DynParallelPr
             8 => {
                 input.state().sstore(con, slot, val)?;
                 input.state().sload(con, slot)?.data
+            }
+            10 => {
+                // retry-safe and state-dependent: fatal unless slots 0 and 1 of the holder agree. In
+                // order the writers keep them equal; a speculative attempt may see a torn pair.
+                let a = input.state().sload(con, U256::from(0))?.data;
+                let b = input.state().sload(con, U256::from(1))?.data;
+                if a != b {
+                    return Err(ParallelPrecompileError::Fatal(PrecompileError::Fatal("holder invariant violated".to_string())));
+                }
+                a
             }
             _ => U256::from(9),
         };
@@ -204,6 +215,14 @@ pub fn reference_precompile(script: Script, obs: Arc<Observations>) -> DynPrecom
                 }
                 it.sstore(con, slot, val).map_err(fatal)?;
                 it.sload(con, slot).map_err(fatal)?.data
+            }
+            10 => {
+                let a = it.sload(con, U256::from(0)).map_err(fatal)?.data;
+                let b = it.sload(con, U256::from(1)).map_err(fatal)?.data;
+                if a != b {
+                    return Err(PrecompileError::Fatal("holder invariant violated".to_string()));
+                }
+                a
             }
             _ => U256::from(9),
         };
